@@ -587,7 +587,7 @@ def _build_spec_font(m):
     from vmon.gen import c06_spec as S
 
     key = (len(m["order"]), bool(m.get("gdef")))
-    f = TTFont(io.BytesIO(S.base_font(m["order"], m["advances"])))
+    f = TTFont(io.BytesIO(S.base_font(m["order"], m.get("advances_build") or m["advances"])))
     f.setGlyphOrder(list(m["order"]))
     S.add_tables(f, m)
     return f
@@ -629,7 +629,8 @@ def run_spec(case, ctx):
     if m.get("permute"):
         m["new_order"] = S.permute_order(rnd, m["order"], m["permute"])
         # hmtx and cmap stay as compiled: advance and code point belong to the glyph id
-        m["advances"] = {g: m["advances"][m["order"][i]] for i, g in enumerate(m["new_order"])}
+        m["advances_build"] = dict(m["advances"])
+        m["advances"] = {g: m["advances_build"][m["order"][i]] for i, g in enumerate(m["new_order"])}
     ref = otlref.Interp(m)
     want, keep = [], []
     for t in texts:
